@@ -89,12 +89,12 @@ def match_known(v, findings):
 
 def merge(results):
     m = {'cases': 0, 'checks': {}, 'sigs': set(), 'skipped': {}, 'lapack': {}, 'events': {}, 'reached': {}, 'samples': [],
-         'violations': {}, 'workloads': {}, 'required': set(), 'failpoint_hits': 0}
+         'violations': {}, 'workloads': {}, 'required': set(), 'failpoint_hits': 0, 'timing': {}}
     for r in results:
         if r.get('status') != 'ok':
             continue
         m['cases'] += r['cases']
-        for key in ('checks', 'skipped', 'lapack', 'events', 'reached', 'workloads'):
+        for key in ('checks', 'skipped', 'lapack', 'events', 'reached', 'workloads', 'timing'):
             for k, v in r[key].items():
                 m[key][k] = m[key].get(k, 0) + v
         m['sigs'].update(r['sigs'])
@@ -243,6 +243,7 @@ def write_evidence(prop, a, m, own, other, known_seen, reasons, wall, have_ic, n
             'monitor_evaluations': own_mon,
             'monitor_evaluations_other_properties': {k: v for k, v in m['checks'].items() if not k.startswith(prop + '|')},
             'workload_cases': m['workloads'],
+            'workload_cpu_s': {k: round(v, 2) for k, v in m['timing'].items()},
             'lapack_boundary': m['lapack'],
             'skipped': m['skipped'],
             'events': {k: v for k, v in m['events'].items()},
